@@ -265,6 +265,68 @@ pub fn check_ipq_regimes() -> Outcome {
             }
         }
     }
+    // Churn at large sizes: n entries with many different keys (fixed pseudo-random sequence),
+    // then rounds of pull / peek / insert / extract-of-an-old-live-key, a drain to a quarter,
+    // and every key ever issued presented once more.
+    if mismatch.is_none() {
+        'churn: for &n in &[70usize, 530, 1030, 2100] {
+            for seed in [1u32, 7, 13] {
+                let mut s = IpqSubject::fresh(&());
+                let mut hist: Vec<String> = vec![format!("churn n={} seed={}", n, seed)];
+                let mut x: u32 = seed;
+                let mut next = move || {
+                    x = x.wrapping_mul(1_664_525).wrapping_add(1_013_904_223);
+                    (x >> 16) as usize
+                };
+                let mut issued = 0usize;
+                let mut ops: Vec<IpqOp> = vec![];
+                for _ in 0..n {
+                    ops.push(IpqOp::Insert((next() % 251) as u8));
+                    issued += 1;
+                }
+                for round in 0..(n / 2 + 40) {
+                    ops.push(IpqOp::Pull);
+                    ops.push(IpqOp::Peek);
+                    ops.push(IpqOp::Insert((next() % 251) as u8));
+                    issued += 1;
+                    if round % 3 == 0 {
+                        ops.push(IpqOp::Extract(next() % issued));
+                        ops.push(IpqOp::Peek);
+                    }
+                    if round % 5 == 0 {
+                        ops.push(IpqOp::Insert((next() % 7) as u8));
+                        issued += 1;
+                    }
+                }
+                // Drain to less than a quarter, then use old keys of entries that may still be queued.
+                for _ in 0..(n * 4 / 5) {
+                    ops.push(IpqOp::Pull);
+                }
+                ops.push(IpqOp::Peek);
+                for i in 0..issued {
+                    ops.push(IpqOp::Extract(i));
+                    if i % 16 == 0 {
+                        ops.push(IpqOp::Peek);
+                    }
+                }
+                ops.push(IpqOp::Pull);
+                let mut failed = None;
+                for op in &ops {
+                    transitions += 1;
+                    if let Err(e) = s.apply(op) {
+                        hist.push(format!("{:?} (operation #{} of the churn sequence)", op, transitions));
+                        failed = Some(e);
+                        break;
+                    }
+                }
+                traces += 1;
+                if let Some(e) = failed {
+                    mismatch = Some(crate::Mismatch { history: hist, msg: e });
+                    break 'churn;
+                }
+            }
+        }
+    }
     Outcome {
         name: "indexed_priority_queue_regimes",
         states: sizes.len() as u64,
